@@ -512,7 +512,7 @@ def two_level_schedules(ctx, site, make, files, cap):
 
 
 def run_site(ctx, site, make, files, n=None, length=60, cap=None, nthreads=3, read_cap=None, points_first=False):
-    n = ctx.scale(30, 500) if n is None else n
+    n = ctx.scale(24, 500) if n is None else n
     two = cap is None
     points = write_point_schedules(ctx, site, make, files, ctx.scale(60, 2000) if cap is None else cap, nthreads, read_cap)
     rand = list(gen_schedules(ctx, nthreads, n, length, two_switch=two))
@@ -1164,7 +1164,7 @@ def schedulers_for(ctx, rng):
         for late in (False, True):
             descs.append(dict(type='model', policy=policy, late=late, workers=rng.choice((1, 2, 3, 5)),
                               seed=rng.randrange(2 ** 30)))
-    for _ in range(ctx.scale(2, 30)):
+    for _ in range(ctx.scale(1, 30)):
         descs.append(dict(type='model', policy='random', late=rng.random() < 0.5, workers=rng.randint(2, 6),
                           seed=rng.randrange(2 ** 30)))
     return descs
@@ -2283,6 +2283,25 @@ def strengthen_site_table(ctx):
 
 KERNEL_FILES = ['katdal/vis_flags_weights.py']
 _kl = {}
+_kpatch = {}
+
+
+def kernel_patch():
+    """every numba kernel of vis_flags_weights.py is replaced by its Python source for the duration of the kernel_lines
+    sites (also for wrappers that look the kernel up when the task runs)"""
+    import katdal.vis_flags_weights as vfwm
+    for nm, obj in list(vars(vfwm).items()):
+        if hasattr(obj, 'py_func') and nm not in _kpatch:
+            _kpatch[nm] = obj
+            setattr(vfwm, nm, obj.py_func)
+
+
+def kernel_unpatch():
+    import katdal.vis_flags_weights as vfwm
+    for nm, obj in _kpatch.items():
+        setattr(vfwm, nm, obj)
+    _kpatch.clear()
+    _kl.clear()
 
 
 def vfw_fixture(n_ants, T, F, chunks, seed, pyfunc=False, scaled=False):
@@ -2304,14 +2323,9 @@ def vfw_fixture(n_ants, T, F, chunks, seed, pyfunc=False, scaled=False):
     for name, array in data.items():
         ch = tuple((c,) * (n // c) for c, n in zip(chunks, array.shape[:2])) + tuple((n,) for n in array.shape[2:])
         info[name] = {'prefix': 'cb1', 'chunks': ch, 'shape': array.shape, 'dtype': np.lib.format.dtype_to_descr(array.dtype)}
-    old = vfwm.weight_power_scale
-    if pyfunc and hasattr(old, 'py_func'):
-        vfwm.weight_power_scale = old.py_func
-    try:
-        vfw = vfwm.ChunkStoreVisFlagsWeights(store, info, corrprods, stored_weights_are_scaled=scaled)
-    finally:
-        vfwm.weight_power_scale = old
-    return vfw
+    if pyfunc:
+        kernel_patch()          # (undone by kernel_unpatch() when the kernel_lines sites are through)
+    return vfwm.ChunkStoreVisFlagsWeights(store, info, corrprods, stored_weights_are_scaled=scaled)
 
 
 def embedded_arrays(arr):
@@ -2566,7 +2580,7 @@ def stress_loads(ctx, only=None):
     import time
     seed = ctx.seed % 1000 if only is None else only['seed']
     t0 = time.time()
-    budget = ctx.scale(5.0, 120.0)
+    budget = ctx.scale(3.5, 120.0)
     for scaled in (False, True):
         nm = 'unscaled_weights' if scaled else 'weights'
         if only is not None and only['scaled'] != scaled:
@@ -2698,7 +2712,10 @@ def run(ctx):
                 ctx.disagree('what=single_thread_load;symptom=open_hangs', dict(site=site, schedule=[]), str(e), None,
                              'opening a v4 data set with applycal and computing one block from ONE thread does not return')
         elif site.startswith('kernel_lines'):
-            run_site(ctx, site, make, files, n=ctx.scale(3, 120), length=1500, cap=ctx.scale(7, 400), read_cap=0)
+            try:
+                run_site(ctx, site, make, files, n=ctx.scale(3, 120), length=1500, cap=ctx.scale(7, 400), read_cap=0)
+            finally:
+                kernel_unpatch()
         elif site == 's3b':
             run_site(ctx, site, make, files, n=ctx.scale(4, 80), length=600, cap=ctx.scale(48, 400), read_cap=ctx.scale(4, 100),
                      points_first=True)
@@ -2836,6 +2853,7 @@ def replay_case(ctx, case):
         else:
             run_one(ctx, site, make, files, case.get('schedule', []), replaying=True)
     finally:
+        kernel_unpatch()
         load_lines_cleanup()
         v4p_cleanup()
         applycal_cleanup()
